@@ -24,7 +24,7 @@ RULES = [
  (r"\|overflow-Sub\|as_ptr\(trim\(", "invariant", "the trimmed text is a sub-slice of the line, so its start pointer is not below the line's"),
  (r"\|overflow-Sub\|Add\(Add\((Add\()?Sub\(as_ptr\(trim\(", "invariant", "start + len - 1 with len >= 1: this branch is only taken for a non-empty trimmed line"),
  (r"BlockStart::new\|overflow-Sub\|v\.end,1", "invariant", "a parsed start tag is at least `<block>` long, so its range end is >= 7"),
- (r"source_position_at\|index-slice\|v\.comment_text\[RangeTo", "invariant", "the offset is that of the tag's ASCII `<` or `>` inside comment_text (or one past it): in bounds and on a char boundary"),
+ (r"source_position_at\|index-(slice|str)\|v\.comment_text\[RangeTo", "invariant", "the offset is that of the tag's ASCII `<` or `>` inside comment_text (or one past it): in bounds and on a char boundary"),
  (r"source_position_at\|overflow-Sub\|Add\(v\.start\.line,count\(lines", "invariant", "lines() of a non-empty prefix (it contains at least the tag's first byte) yields at least one line"),
  (r"source_position_at\|overflow-Sub\|v,unwrap_or\(rfind", "invariant", "rfind runs on the prefix [..offset], so its result is < offset"),
  (r"Block::content\|index-str", "dependency-contract", "content_bytes_range is built from tree-sitter node byte offsets of the same source text (char boundaries) with start comment before end comment, or is 0..0"),
